@@ -135,7 +135,8 @@ Proof.
   intros Hf Hb. destruct v as [|d0 [|d1 [|d2 v]]]; try discriminate. cbn [ctl_range]. intro H. injection H as <-.
   inversion Hb as [|? ? B0 Hb1]; subst. inversion Hb1 as [|? ? B1 Hb2]; subst. unfold byte_ok in *.
   unfold rsize, clip_range. cbn [fst snd].
-  destruct Hf as [-> | ->]; unfold lock_byte_range, rsvd_byte_range; cbn [fst snd]; destruct (0 <? d1) eqn:E; lia.
+  destruct Hf as [-> | ->]; unfold lock_byte_range, rsvd_byte_range; cbn [fst snd]; destruct (0 <? d1) eqn:E;
+    set (base := Z.shiftr d0 4 * 2 ^ Z.land d2 15 + Z.land d0 15); clearbody base; lia.
 Qed.
 Lemma t2_dispatch_next skip t l v skip' : bytes_ok v -> t2_dispatch skip t l v = Ok (Next skip') ->
   skip' = skip \/ (l = 3 /\ exists r, skip' = r :: skip /\ rsize r <= 256).
@@ -144,11 +145,13 @@ Proof.
   destruct (t =? 1).
   { destruct (Z.eqb_spec l 3); [|intro H; injection H as <-; auto].
     destruct (ctl_range lock_byte_range 1048576 v) as [r| | |] eqn:E; cbn [bind]; try discriminate.
-    intro H; injection H as <-. right. split; [auto|]. exists r. split; [reflexivity|]. eapply ctl_small; eauto. }
+    intro H; injection H as <-. right. split; [auto|]. exists r. split; [reflexivity|].
+    exact (ctl_small lock_byte_range 1048576 v r (or_introl eq_refl) Hb E). }
   destruct (t =? 2).
   { destruct (Z.eqb_spec l 3); [|intro H; injection H as <-; auto].
     destruct (ctl_range rsvd_byte_range 1048576 v) as [r| | |] eqn:E; cbn [bind]; try discriminate.
-    intro H; injection H as <-. right. split; [auto|]. exists r. split; [reflexivity|]. eapply ctl_small; eauto. }
+    intro H; injection H as <-. right. split; [auto|]. exists r. split; [reflexivity|].
+    exact (ctl_small rsvd_byte_range 1048576 v r (or_intror eq_refl) Hb E). }
   destruct (t =? 3); [discriminate|]. destruct (t =? 254); [discriminate|]. intro H; injection H as <-; auto.
 Qed.
 
@@ -198,19 +201,20 @@ Proof.
   destruct (t2_dispatch skip t l v) as [[skip'| |]| | |] eqn:Ed; try exact Hd'.
   destruct (t2_dispatch_next _ _ _ _ _ Hbv Ed) as [-> | (-> & r & -> & Hr256)].
   - apply IH; auto; [destruct (l <? 255); lia|]. unfold winv. destruct (l <? 255); lia.
-  - apply IH; auto; [constructor; auto | cbn; lia |]. unfold winv. rewrite len_cons. cbn. lia.
+  - change (3 <? 255) with true. cbv iota. apply IH; auto; [constructor; auto | lia |]. unfold winv. rewrite len_cons. lia.
 Qed.
 
 (* Type 2: the demand is bounded by the explicit function of the data area size, for every memory *)
 Theorem t2_read_demand_bound em b14 : bytes_ok em -> rd em 14 = Ok b14 ->
   snd (t2_read_d em) <= t2_demand_bound (b14 * 8 + 16).
 Proof.
-  intros Hb E14. pose proof (rd_byte _ _ _ Hb E14) as B14. unfold t2_read_d. rewrite E14.
+  intros Hb E14. pose proof (rd_byte _ _ _ Hb E14) as B14. pose proof (rd_inv _ _ _ E14) as [L14 _].
+  unfold t2_read_d. rewrite E14, (rd_ok em 12), (rd_ok em 13) by lia.
   assert (G : 16 <= t2_demand_bound (b14 * 8 + 16)) by (unfold t2_demand_bound; lia).
-  destruct (rd em 12) as [b12| | |]; cbn [snd]; try (apply rd_inv in E14; lia).
-  destruct (rd em 13) as [b13| | |]; cbn [snd]; try (apply rd_inv in E14; lia).
-  destruct (rd em 15) as [b15| | |] eqn:E15; cbn [snd]; try (apply rd_inv in E14; lia).
-  destruct (negb (b12 =? 225)); [cbn; lia|]. destruct (negb (Z.shiftr b13 4 =? 1)); [cbn; lia|].
+  destruct (rd em 15) as [b15| | |] eqn:E15.
+  2-4: (cbn [snd]; unfold rd in E15; change (15 <? 0) with false in E15; cbv iota in E15;
+        destruct (nth_error em (Z.to_nat 15)) eqn:En; try discriminate; apply nth_error_None in En; unfold len; lia).
+  destruct (negb (get em 12 =? 225)); [cbn; lia|]. destruct (negb (Z.shiftr (get em 13) 4 =? 1)); [cbn; lia|].
   pose proof (t2_walk_d_bound (S (length em)) em (b14 * 8 + 16) [] 16 false 16 16 Hb ltac:(lia) ltac:(constructor) ltac:(lia)) as W.
   destruct (t2_walk_d (S (length em)) em (b14 * 8 + 16) [] 16 false 16 16) as [r d]. cbn [snd] in W.
   assert (Wd : d <= t2_demand_bound (b14 * 8 + 16)) by (apply W; [unfold winv; cbn; lia | lia]).
@@ -219,7 +223,7 @@ Qed.
 (* ... and so is the number of commands: one READ per 16 bytes, two SECTOR SELECT packets per KiB, 3 tries for the last *)
 Theorem t2_read_cmds em b14 : bytes_ok em -> rd em 14 = Ok b14 ->
   t2_cmds_max (snd (t2_read_d em)) <= t2_cmds_max (t2_demand_bound (b14 * 8 + 16)) /\
-  t2_cmds_max (t2_demand_bound (b14 * 8 + 16)) <= 17347.
+  t2_cmds_max (t2_demand_bound (b14 * 8 + 16)) <= 17856.
 Proof.
   intros Hb E14. pose proof (t2_read_demand_bound em b14 Hb E14) as H. pose proof (rd_byte _ _ _ Hb E14) as B14.
   unfold t2_cmds_max, t2_demand_bound in *. split; lia.
